@@ -327,6 +327,13 @@ func ruleSizeBeforeOp(c *Ctx, r *Report, prefix string) {
 				}
 			}
 		}
+		// the same comparison evaluated as a value (the right operand of && in a new boolean helper)
+		if bo, ok := ins.(*ssa.BinOp); ok && isCmp(bo.Op) && c.IsNew(bo.Parent()) {
+			dec := c.Func("lzma", "decoder.Decompressed")
+			if (isFieldLoadOf(bo.X, fSize) || isFieldLoadOf(bo.Y, fSize)) && (roleCallTo(dec)(bo.X) || roleCallTo(dec)(bo.Y)) {
+				return "size-test"
+			}
+		}
 		return ""
 	}
 	paths, over := CollectPaths(c, spec)
